@@ -1,9 +1,235 @@
+/-
+C18 — build options select exactly the molecules and residues they name.
+
+  "A build-file [ molecule ] block applies to the molecules with the given name and an index in the stated
+   half-open range, and its residue-level directives to the residues with the given name and an id in the
+   stated half-open range, leaving all others untouched. -start, -lig and -split specifications select by
+   molecule name, molecule index, residue name and residue id as written; splitting partitions the atoms of
+   a residue into the named new residues without losing or duplicating any, and ligands are placed one step
+   from the residue they are attached to and handed back to their own molecule with the molecule list
+   unchanged."
+
+Property theorems only (model: `Model/BuildFile.lean`, lemmas: `Proofs/BuildFile.lean`).  All theorems
+quantify over every topology (list of molecules), every build file (list of blocks) and every option.
+
+Partial / known shapes (the model mirrors the code; the counterexamples are proved below):
+* `[ rw_restriction ]`: the table is keyed by molecule only and assigned, so of several lines written for one
+  molecule only the last survives (`C18_rw_last_line`, `C18_rw_select_partial`,
+  `C18_rw_last_line_wins_counterexample`);
+* `[ distance_restraints ]` / `[ persistence_length ]` are applied by molecule index whatever the block's
+  name (`C18_dist_sound`, `C18_dist_select_partial`, `C18_dist_ignores_name_counterexample`, same for
+  persistence batches).
+"One step from the host residue" is C05's step lemma; here: the ligand residue holds exactly the position
+generated for its attached node.
+-/
 import PolyplyVerif.Model.BuildFile
 import PolyplyVerif.Proofs.BuildFile
 
 namespace PolyplyVerif.C18
-open PolyplyVerif.BuildFile
+open PolyplyVerif.BuildFile PolyplyVerif.Proofs.BuildFile
 
-theorem C18_placeholder : arange 2 5 = [2, 3, 4] := by decide
+/-! ### build file: selection -/
+
+/-- Exact form: the `restraints` attribute of EVERY node of EVERY molecule after parsing is the list of the
+geometry lines whose block names the molecule (name ∧ lo ≤ i < hi) and whose resname / half-open resid
+range selects the node — in file order, nothing more, nothing less (a node no line selects gets `[]`:
+untouched). -/
+theorem C18_select_exact (mols : List Mol) (blocks : List Block) (dir : Director)
+    (h : parseBlocks mols blocks = .ok dir) (i : Nat) (v : ResNode) :
+    restraintsOf dir mols i v = specRestraints blocks mols i v :=
+  restraints_exact mols blocks dir h i v
+
+/-- Node `v` of molecule `i` receives directive `o` (payload `p`) IFF the molecule's name is the block's,
+`lo ≤ i < hi`, `resname v = o.res` and `rlo ≤ resid v < rhi`. -/
+theorem C18_select_iff (mols : List Mol) (blocks : List Block) (dir : Director)
+    (h : parseBlocks mols blocks = .ok dir) (i : Nat) (v : ResNode) (p : Nat) :
+    p ∈ restraintsOf dir mols i v ↔
+      ∃ b ∈ blocks, ∃ d : ResDir, Line.geometry d ∈ b.lines ∧ d.payload = p ∧
+        (mols[i]?.map (·.name)) = some b.name ∧ b.lo ≤ i ∧ i < b.hi ∧
+        v.resname = d.resname ∧ d.rlo ≤ v.resid ∧ v.resid < d.rhi := by
+  rw [C18_select_exact mols blocks dir h i v]
+  unfold specRestraints
+  simp only [List.mem_flatMap]
+  constructor
+  · rintro ⟨b, hb, hp⟩
+    by_cases hs : blockSelects mols b i = true
+    · simp only [hs, if_true, List.mem_filterMap] at hp
+      obtain ⟨l, hl, hg⟩ := hp
+      cases l with
+      | geometry d =>
+        simp only [geomPayload] at hg
+        by_cases hr : inRange d v = true
+        · simp only [hr, if_true, Option.some.injEq] at hg
+          simp only [blockSelects, Bool.and_eq_true, decide_eq_true_eq] at hs
+          simp only [inRange, Bool.and_eq_true, decide_eq_true_eq] at hr
+          exact ⟨b, hb, d, hl, hg, hs.1.1, hs.1.2, hs.2, hr.2, hr.1.1, hr.1.2⟩
+        · simp [hr] at hg
+      | rw d => simp [geomPayload] at hg
+      | dist a c q => simp [geomPayload] at hg
+      | pers s e q => simp [geomPayload] at hg
+    · simp [hs] at hp
+  · rintro ⟨b, hb, d, hl, hp, hn, h1, h2, h3, h4, h5⟩
+    refine ⟨b, hb, ?_⟩
+    have hs : blockSelects mols b i = true := by simp [blockSelects, hn, h1, h2]
+    simp only [hs, if_true, List.mem_filterMap]
+    exact ⟨.geometry d, hl, by simp [geomPayload, inRange, h3, h4, h5, hp]⟩
+
+/-- non-vacuity (and the boundaries of both half-open ranges): block `A 1 3`, sphere `RA 2 4` -/
+example :
+    let mols : List Mol := [⟨"A", [⟨0, 2, "RA", none⟩]⟩, ⟨"A", [⟨0, 1, "RA", none⟩, ⟨1, 2, "RA", none⟩, ⟨2, 3, "RB", none⟩, ⟨3, 4, "RA", none⟩]⟩,
+                            ⟨"B", [⟨0, 2, "RA", none⟩]⟩, ⟨"A", [⟨0, 3, "RA", none⟩]⟩]
+    let blocks : List Block := [⟨"A", 1, 3, [.geometry ⟨"RA", 2, 4, 7⟩]⟩]
+    (parseBlocks mols blocks).toOption.map (fun dir => (annotate dir mols).map (·.restraints)) =
+      some [[], [], [7], [], [], [], []] := by
+  decide
+
+/-! ### build file: `[ rw_restriction ]` (known shape: last line wins) -/
+
+/-- What the code does: of all `[ rw_restriction ]` lines written for molecule `(name, i)` only the last one
+is applied. -/
+theorem C18_rw_last_line (mols : List Mol) (blocks : List Block) (dir : Director)
+    (h : parseBlocks mols blocks = .ok dir) (i : Nat) (v : ResNode) (m : Mol) (hm : mols[i]? = some m) :
+    rwOf dir mols i v = tagged ((rwFor blocks m.name i).getLast?).toList v :=
+  rw_exact mols blocks dir h i v m hm
+
+/-- The selection rule holds for `rw_options` when at most one `[ rw_restriction ]` line is written for the
+molecule.  MISSING for the full statement: with two or more lines the earlier ones are dropped
+(`C18_rw_last_line_wins_counterexample`). -/
+theorem C18_rw_select_partial (mols : List Mol) (blocks : List Block) (dir : Director)
+    (h : parseBlocks mols blocks = .ok dir) (i : Nat) (v : ResNode) (m : Mol) (hm : mols[i]? = some m)
+    (hone : (rwFor blocks m.name i).length ≤ 1) :
+    rwOf dir mols i v = specRw blocks mols i v := by
+  rw [C18_rw_last_line mols blocks dir h i v m hm, specRw_eq mols blocks i v m hm,
+    getLast_toList_of_length_le_one _ hone]
+
+example : (rwFor [⟨"A", 0, 2, [.rw ⟨"RA", 1, 3, 1⟩, .geometry ⟨"RA", 1, 2, 2⟩]⟩] "A" 1).length ≤ 1 := by decide
+
+/-- The failing shape: two lines for different residues of one molecule; the first is lost. -/
+theorem C18_rw_last_line_wins_counterexample :
+    let mols : List Mol := [⟨"A", [⟨0, 1, "RA", none⟩, ⟨1, 3, "RB", none⟩]⟩]
+    let blocks : List Block := [⟨"A", 0, 1, [.rw ⟨"RA", 1, 3, 1⟩, .rw ⟨"RB", 3, 5, 2⟩]⟩]
+    (parseBlocks mols blocks).toOption.map (fun dir => (annotate dir mols).map (·.rw)) = some [[], [2]] ∧
+    (specAnnotate blocks mols).map (·.rw) = [[1], [2]] := by
+  decide
+
+/-! ### build file: molecule-level directives (known shape: applied by index whatever the name) -/
+
+/-- Every distance restraint the code applies to molecule `i` was written in a block whose index range
+contains `i` (and molecule `i` exists).  The block's NAME is not part of what the code checks. -/
+theorem C18_dist_sound (mols : List Mol) (blocks : List Block) (dir : Director)
+    (h : parseBlocks mols blocks = .ok dir) (i a c p : Nat) (hin : (i, a, c, p) ∈ distApplied dir) :
+    ∃ b ∈ blocks, Line.dist a c p ∈ b.lines ∧ b.lo ≤ i ∧ i < b.hi ∧ i < mols.length := by
+  obtain ⟨name, inner, hk, hq⟩ := mem_distApplied dir i a c p hin
+  obtain ⟨b, hb, hl, _, h1, h2, h3⟩ := parseBlocks_dist_ok mols blocks dir h (name, i) inner hk (a, c) p hq
+  exact ⟨b, hb, hl, h1, h2, h3⟩
+
+/-- When every block is written for molecules that carry its name (the range of a block covers only
+molecules of that name), every applied distance restraint is one the specification selects.
+MISSING for the full statement: the name check (`C18_dist_ignores_name_counterexample`). -/
+theorem C18_dist_select_partial (mols : List Mol) (blocks : List Block) (dir : Director)
+    (h : parseBlocks mols blocks = .ok dir)
+    (hnames : ∀ b ∈ blocks, ∀ i, b.lo ≤ i → i < b.hi → i < mols.length → blockSelects mols b i = true)
+    (i a c p : Nat) (hin : (i, a, c, p) ∈ distApplied dir) : (i, a, c, p) ∈ specDist blocks mols := by
+  obtain ⟨b, hb, hl, h1, h2, h3⟩ := C18_dist_sound mols blocks dir h i a c p hin
+  unfold specDist
+  rw [List.mem_flatMap]
+  refine ⟨b, hb, ?_⟩
+  rw [List.mem_flatMap]
+  refine ⟨.dist a c p, hl, ?_⟩
+  simp only [List.mem_map, List.mem_filter]
+  exact ⟨i, ⟨(mem_arange _ _ _).mpr ⟨h1, h2⟩, hnames b hb i h1 h2 h3⟩, rfl⟩
+
+/-- The failing shape: a block named `B` over indices 0..2 restrains the molecules 0 and 1 named `A`. -/
+theorem C18_dist_ignores_name_counterexample :
+    let mols : List Mol := [⟨"A", [⟨0, 1, "RA", none⟩, ⟨1, 2, "RA", none⟩]⟩, ⟨"A", [⟨0, 1, "RA", none⟩, ⟨1, 2, "RA", none⟩]⟩]
+    let blocks : List Block := [⟨"B", 0, 2, [.dist 0 1 5, .pers 0 1 6]⟩]
+    (parseBlocks mols blocks).toOption.map (fun dir => (distApplied dir, persApplied dir)) =
+      some ([(0, 0, 1, 5), (1, 0, 1, 5)], [(6, [0, 1])]) ∧
+    specDist blocks mols = [] ∧ specPers blocks mols = [(6, [])] := by
+  decide
+
+/-- Persistence batches: exactly one batch per `[ persistence_length ]` line, restraining every index of
+the block's range (again whatever the name). -/
+theorem C18_pers_exact (mols : List Mol) (blocks : List Block) (dir : Director)
+    (h : parseBlocks mols blocks = .ok dir) :
+    dir.pers = blocks.flatMap fun b => b.lines.flatMap (persOf b) :=
+  parseBlocks_pers mols blocks dir h
+
+/-! ### residue specifications -/
+
+/-- Round trip of the grammar `<mol>#<idx>-<res>#<resid>` with any subset of the four fields omitted:
+writing a specification and reading it gives the same fields, for all names free of `#` and `-` and all
+numbers. -/
+theorem C18_spec_parse (sp : Spec) (h : sp.wellFormed) : parseSpec (renderSpec sp) = .ok sp := by
+  unfold parseSpec renderSpec
+  rw [String.toList_ofList]
+  exact parse_render sp h
+
+example : renderSpec ⟨some "PEO", some 12, none, some 7⟩ = "PEO#12-#7" ∧
+    (parseSpec "PEO#12-#7").toOption = some ⟨some "PEO", some 12, none, some 7⟩ ∧
+    (parseSpec "-RA").toOption = some ⟨none, none, some "RA", none⟩ ∧ (parseSpec "A#x").toOption = none := by
+  decide
+
+/-- decimal numerals are read back -/
+theorem C18_spec_numbers (n : Nat) : readNat (showNat n) = some n := readNat_showNat n
+
+/-! ### `-split` -/
+
+/-- No atom is lost and none duplicated: for every molecule, every list of split definitions that is
+accepted, the atom lists of the new residues together are a permutation of the atoms of the molecule. -/
+theorem C18_split_no_loss_no_dup (atoms : List Atom) (maxResid : Int) (sds : List SplitDef) (r : SplitResult)
+    (h : splitResidue atoms maxResid sds = .ok r) :
+    (r.residues.flatMap (·.2.2)).Perm (atoms.map (·.key)) :=
+  split_perm atoms maxResid sds r h
+
+/-- A split definition is accepted iff no atom name is mentioned twice (a repeated name is rejected). -/
+theorem C18_split_rejects_repeated_atom (atoms : List Atom) (sd : SplitDef) :
+    (∃ m, interpretMapping atoms sd = .ok m) ↔ (listedNames sd).Nodup :=
+  interpret_ok_iff atoms sd
+
+example : (listedNames ⟨"RA", [("NX", ["X", "Y"]), ("NY", ["Z"])]⟩).Nodup ∧
+    ¬ (listedNames ⟨"RA", [("NX", ["X", "Y"]), ("NY", ["X"])]⟩).Nodup := by decide
+
+/-- the partition on a concrete residue (test, by evaluation): `RA:NX-X:NY-Y,Z` on two residues -/
+example :
+    let atoms : List Atom := [⟨0, 1, "RA", "X"⟩, ⟨1, 1, "RA", "Y"⟩, ⟨2, 1, "RA", "Z"⟩, ⟨3, 1, "RA", "W"⟩,
+                              ⟨4, 2, "RA", "X"⟩, ⟨5, 2, "RA", "Y"⟩, ⟨6, 3, "RB", "X"⟩]
+    let sd : SplitDef := ⟨"RA", [("NX", ["X"]), ("NY", ["Y", "Z"])]⟩
+    (splitResidue atoms 3 [sd]).toOption.map (·.residues) =
+      some [(0, "NX", [0]), (1, "NY", [1, 2]), (2, "RA", [3]), (3, "NX", [4]), (4, "NY", [5]), (5, "RB", [6])] ∧
+    (splitResidue atoms 3 [sd]).toOption.map (fun r => splitSpecB atoms sd r.residues) = some true := by
+  decide
+
+/-! ### `-lig` -/
+
+/-- Attach → build → detach gives the molecule list back exactly (names, node keys, resids, resnames, in
+order), for every topology whose nodes carry no `ligated` mark to begin with, every list of ligand
+definitions and every position table. -/
+theorem C18_ligand_roundtrip_structure {π} (mols : List Mol) (defs : List (Nat × LigDef))
+    (mols1 : List Mol) (edges : List (Nat × Nat × Nat)) (h : attachAll mols defs = .ok (mols1, edges))
+    (hfresh : ∀ m ∈ mols, ∀ v ∈ m.nodes, v.ligated = none) (pos : PosTable π) :
+    (detachAll mols1 pos).1 = mols :=
+  detach_structure mols mols1 (attachAll_inv mols defs (mols1, edges) h) hfresh pos
+
+/-- … and each ligand residue holds the position generated for its attached node, the attached nodes are
+gone, every other residue keeps the position generated for itself.  Hypotheses: no ligand residue is
+itself an attached node (a ligand molecule that is also a host: the real `split_ligands` raises KeyError
+there) and no ligand residue has two nodes attached. -/
+theorem C18_ligand_roundtrip_positions {π} (mols1 : List Mol) (pos : PosTable π)
+    (hsep : ∀ st ∈ ligatedNodes mols1, st.2 ∉ (ligatedNodes mols1).map (·.1))
+    (hnd : ((ligatedNodes mols1).map (·.2)).Nodup) :
+    (∀ st ∈ ligatedNodes mols1, (lookup pos st.1).isSome = true →
+        lookup (detachAll mols1 pos).2 st.2 = lookup pos st.1) ∧
+    (∀ k, k ∉ (ligatedNodes mols1).map (·.2) → k ∉ (ligatedNodes mols1).map (·.1) →
+        lookup (detachAll mols1 pos).2 k = lookup pos k) ∧
+    (∀ k ∈ (ligatedNodes mols1).map (·.1), lookup (detachAll mols1 pos).2 k = none) :=
+  detach_positions mols1 pos hsep hnd
+
+/-- non-vacuity: `A-RA#2 : L` on two hosts and three ligands (fixtures in `Proofs/BuildFile.lean`) -/
+example :
+    (exampleAttached.map fun r => ligatedNodes r.1) = some [((0, 2), (2, 0)), ((1, 2), (3, 0))] ∧
+    (exampleAttached.map fun r => (detachAll r.1 examplePos).1) = some exampleMols ∧
+    (exampleAttached.map fun r => (detachAll r.1 examplePos).2) = some [((2, 0), "p"), ((3, 0), "q")] := by
+  decide
 
 end PolyplyVerif.C18
